@@ -101,22 +101,56 @@ def invisible (v : Variant) : Pc → Bool
   | .rIf => v != .legacyJoin
   | _ => false
 
-/-- depth-first enumeration of all maximal strict schedules (with `por`: a thread standing at an
-    invisible line is the only one explored) -/
-partial def enumerate (r : Req) (por : Bool) (limit : Nat) (s : St) (pre : List Nat)
+inductive Var | lock | pthread | connPresent | connClosed | replies | live | popen | closeMsgs | nthreads | outs
+  deriving DecidableEq
+
+/-- shared variables read / written by the line at `pc` (conservative) -/
+def footprint (v : Variant) : Pc → List Var × List Var
+  | .pWith | .rWith | .pExit | .rExit => ([], [.lock])
+  | .pIfThread | .rRead => ([.pthread], [])
+  | .pIfConn | .rIfConn | .cConn | .clConn => ([.connPresent], [])
+  | .pMk => ([.nthreads], [.pthread])
+  | .pStart => ([.pthread], [.nthreads])
+  | .rIf => (if v = .legacyJoin then [.pthread] else [], [])
+  | .rJoin => (if v = .legacyJoin then [.pthread, .outs] else [.outs], [])
+  | .rRun | .tRun => ([], [.connPresent, .connClosed, .replies, .live, .popen])
+  | .tClear => ([], [.pthread, .outs])
+  | .cSend => ([.connPresent, .connClosed, .live], [.replies])
+  | .cRecv => ([.connPresent, .connClosed, .live], [.replies])
+  | .clSend => ([.connPresent, .connClosed], [.live, .closeMsgs])
+  | .clClose => ([.connPresent], [.connClosed, .live])
+  | .clDel => ([], [.connPresent])
+  | _ => ([], [])
+
+def conflict (a b : List Var × List Var) : Bool :=
+  a.2.any (fun x => b.1.contains x || b.2.contains x) || b.2.any (fun x => a.1.contains x)
+
+def independent (v : Variant) (s : St) (t u : Nat) : Bool :=
+  match s.threads[t]?, s.threads[u]? with
+  | some a, some b => !conflict (footprint v a.pc) (footprint v b.pc)
+  | _, _ => false
+
+/-- depth-first enumeration of maximal strict schedules.
+    mode 0: every schedule; mode 1: a thread standing at an invisible line is the only one explored;
+    mode 2: mode 1 + sleep sets (one schedule per class of schedules equal up to swapping adjacent
+    independent lines). -/
+partial def enumerate (r : Req) (mode : Nat) (limit : Nat) (s : St) (pre : List Nat) (sleep : List Nat)
     (acc : Array String × Bool) : Array String × Bool :=
   if acc.1.size ≥ limit then (acc.1, true) else
   let en := s.enabledSet r.v r.lf
   if en.isEmpty then (acc.1.push (tidsToString pre.reverse), acc.2) else
-  let pick := if por then
-      match en.find? (fun t => match s.threads[t]? with | some th => invisible r.v th.pc | none => false) with
+  let inv := en.find? (fun t => match s.threads[t]? with | some th => invisible r.v th.pc | none => false)
+  let pick := match (if mode ≥ 1 then inv else none) with
       | some t => [t]
       | none => en
-    else en
-  pick.foldl (fun acc t =>
+  let (acc, _) := pick.foldl (fun (acc, sleep) t =>
+    if mode ≥ 2 && sleep.contains t then (acc, sleep) else
     match step r.v r.lf s t with
-    | some s' => enumerate r por limit s' (t :: pre) acc
-    | none => acc) acc
+    | some s' =>
+      let sl' := if mode ≥ 2 then sleep.filter (fun u => independent r.v s u t) else []
+      (enumerate r mode limit s' (t :: pre) sl' acc, t :: sleep)
+    | none => (acc, sleep)) (acc, sleep)
+  acc
 
 def srvInOfString : String → Except String SrvIn
   | "request" => pure .request
@@ -136,9 +170,9 @@ def handle (j : Json) : Json :=
     match parseReq j with
     | .error e => errJson e
     | .ok r =>
-      let por := match j.getObjValAs? Bool "por" with | .ok b => b | .error _ => false
+      let mode := match jnat j "mode" with | .ok n => n | .error _ => 0
       let limit := match jnat j "limit" with | .ok n => n | .error _ => 100000
-      let (scheds, trunc) := enumerate r por limit (init r.w) [] (#[], false)
+      let (scheds, trunc) := enumerate r mode limit (init r.w) [] [] (#[], false)
       Json.mkObj [("n", Json.num scheds.size), ("truncated", Json.bool trunc),
                   ("schedules", Json.arr (scheds.map Json.str))]
   | .ok "server" =>
